@@ -446,5 +446,8 @@ def check(run):
     r05f(run)
     r05g(run)
     r05h(run)
+    # shared with C06: the alias tables are rebuilt from the current fields (an alias dropped by a re-declaration is gone)
+    run.rules_run.append("R06h")
+    c06.r06h(run)
     pd, A, B = c06.siblings(run)
     c06.r06f(run, A, B)
